@@ -32,6 +32,24 @@ def outcome_diff(a, b, what):
     return None
 
 
+def schedule_space(plan):
+    """Rough size of the completion-order space: product of factorials of the step widths,
+    times an interleaving factor for concurrently active frames."""
+    import math
+    widths = {}
+    for t in plan["tasks"]:
+        if t["kind"] == "leaf" and not t["instant"]:
+            widths[(t["frame"], t["step"])] = widths.get((t["frame"], t["step"]), 0) + 1
+    size = 1
+    for w in widths.values():
+        size *= math.factorial(w)
+    nested = len(plan["frames"]) - 1
+    leaves = sum(widths.values())
+    if nested and leaves > 8:
+        return 10 ** 9          # frames run concurrently with their siblings: interleavings explode
+    return size * (4 ** nested)
+
+
 def dict_diff(a, b):
     return {k: (a.get(k), b.get(k)) for k in set(a) | set(b) if a.get(k) != b.get(k)}
 
@@ -79,17 +97,25 @@ def run(tier, seed):
     res, stats = predict.model_predict(jobs, prop="none")
     ctx.add_tlc(stats)
     # --- TLC enumerates the completion orders of every step under every concurrency limit
-    plan_list, plan_of = [], {}
+    plan_list, plan_of, big = [], {}, []
     for i, (prog, prov, kind, o_sync) in enumerate(bases):
         ja = jobs[2 * i + 1]
         for k in ks:
-            pid = len(plan_list) + 1
-            plan_list.append(plans.build_plan(pid, ja, res[ja["id"]], k))
+            pid = len(plan_of) + 1
+            plan = plans.build_plan(pid, ja, res[ja["id"]], k)
             plan_of[pid] = (i, k)
+            if schedule_space(plan) <= 200:
+                plan_list.append(plan)
+            else:
+                big.append(pid)      # too many completion orders to enumerate: sampled with random release policies
     scheds, st2 = sched.enumerate_schedules(plan_list)
     ctx.add_tlc(st2)
     if st2["violations"]:
         raise RuntimeError(f"HGSched invariant violated on the model: {st2['violations'][:1]}")
+    for pid in big:
+        scheds[pid] = [None] * cap
+    ctx.bump("plans_enumerated_exhaustively", len(plan_list))
+    ctx.bump("plans_sampled", len(big))
     n_sched = 0
     for pid, orders in sorted(scheds.items()):
         i, k = plan_of[pid]
@@ -97,12 +123,13 @@ def run(tier, seed):
         ja, ms, ma = jobs[2 * i + 1], res[jobs[2 * i]["id"]], res[jobs[2 * i + 1]["id"]]
         if len(orders) > cap:
             orders = rng.sample(orders, cap)
+        pick_r = random.Random(rng.random())
         ctx.distinct(IR.struct_hash([prog, prov]))
         for order in orders:
             n_sched += 1
             ctx.count()
             ctx.traces()
-            o, ctl = sched.run_schedule(ja, order, k)
+            o, ctl = sched.run_schedule(ja, order or [], k, pick=(None if order is not None else (lambda keys: pick_r.choice(keys))))
             wit = {"job": ja, "k": k, "schedule": order, "sync": {x: o_sync[x] for x in ("status", "values", "err")},
                    "async": {x: o[x] for x in ("status", "values", "err")}, "kind": kind}
             if o["status"] == "deadlock":
@@ -114,7 +141,12 @@ def run(tier, seed):
                 continue
             if o["status"] == "failed":
                 # every partial value the sync runner returns is returned identically by the async runner
-                bad = {k2: (v, o["values"].get(k2)) for k2, v in o_sync["values"].items() if o["values"].get(k2) != v}
+                # ... except where a sibling that only the async runner still completed in the failing
+                # step (sync stops at the first failure in list order) has produced that name anew
+                extra = multiset(o["calls"]) - multiset(o_sync["calls"])
+                nodes_by = {n["name"]: n for n in prog["nodes"]}
+                renewed = {x for (p, _a) in extra for x in nodes_by.get(p.split("/")[0], {"outputs": []})["outputs"]}
+                bad = {k2: (v, o["values"].get(k2)) for k2, v in o_sync["values"].items() if o["values"].get(k2) != v and k2 not in renewed}
                 if bad:
                     ctx.violation("partial-values", wit, f"sync partial values not returned identically by async: {bad}")
                     continue
